@@ -90,14 +90,16 @@ def tree_to_spec(tree):
 
 
 # ---------------------------------------------------------------- results dict / file
-def make_results(chains, data, samples, clusters=None, order=None):
-    """chains: {chain_num: [(log_p_one, Tree)]}; order: insertion order of the chain keys (default sorted)."""
+def make_results(chains, data, samples, clusters=None, order=None, thin=3):
+    """chains: {chain_num: [(log_p_one, Tree)]}; order: insertion order of the chain keys (default sorted).
+    The "iter" field is what run.py records for a run with the given thinning interval: 0 for the post-burn-in entry,
+    then the sweep numbers 0, thin, 2*thin, ... - NOT the position of the entry in the list."""
     results = {}
     keys = list(order) if order is not None else sorted(chains)
     for c in keys:
         trace = []
         for i, (score, tree) in enumerate(chains[c]):
-            trace.append({"iter": i, "time": 0.25 * i, "alpha": 1.0, "log_p_one": float(score), "tree": tree.to_dict()})
+            trace.append({"iter": 0 if i == 0 else (i - 1) * thin, "time": 0.25 * i, "alpha": 1.0, "log_p_one": float(score), "tree": tree.to_dict()})
         res = {"data": data, "samples": list(samples), "trace": trace, "chain_num": c}
         if clusters is not None:
             res["clusters"] = clusters
